@@ -107,6 +107,8 @@ class LoopRuntime:
         # ghost inputs of the contract under verification are visible to its loop contracts
         for nm, v in ctx().ghost.get("caller_args", {}).items():
             env.setdefault(nm, v)
+        # indices of the enclosing (cut) for-loops, outermost first: a nested loop's invariant may refer to them
+        env["_ks"] = [v for nm, v in loc.items() if nm.startswith("__vc_k_") and v is not k]
         if it is not None:
             env["_seq"] = it
             env["_k"] = k
@@ -117,7 +119,7 @@ class LoopRuntime:
     def iter_begin(self, key, iterable):
         from .seq import SymSeq
 
-        if isinstance(iterable, SymSeq):
+        if isinstance(iterable, SymSeq) or (hasattr(iterable, "__symlen__") and hasattr(iterable, "get")):
             return iterable
         if isinstance(iterable, SymBase):
             raise Unsupported(f"loop contract over {type(iterable).__name__}")
@@ -158,11 +160,35 @@ class LoopRuntime:
             return make_value(spec.havoc[name], name)
         return fresh_like(cur, name)
 
+    def havoc_mutated(self, key, name, cur):
+        """a local whose object the loop body changes in place: its state after an arbitrary number of
+        iterations is unknown.  The loop contract must say what it is (havoc={name: shape}) unless the
+        value is a proxy that knows how to forget its contents; an object that is not a container at all
+        (self, a module) is left to the contract's `modifies`."""
+        spec = self._spec(key)
+        if name in spec.havoc:
+            from .contract import make_value
+
+            return make_value(spec.havoc[name], name)
+        from .seq import SymBytes, SymSeq
+
+        if isinstance(cur, (SymSeq, SymBytes)):
+            return fresh_like(cur, name)
+        if isinstance(cur, (list, dict, set, bytearray)):
+            raise Unsupported(f"loop {key} changes the {type(cur).__name__} `{name}` in place: its loop contract must describe it (havoc={{'{name}': <shape>}})")
+        return cur
+
     def assume_inv(self, key, loc, it=None, k=None):
         spec = self._spec(key)
         c = ctx()
         env = self._env(loc, it, k)
-        c.assume(call_by_name(spec.invariant, env))
+        prev = c.ghost.get("mode", "claim")
+        c.ghost["mode"] = "assume"  # lemma applications inside the invariant contribute their instances
+        try:
+            inv = call_by_name(spec.invariant, env)
+        finally:
+            c.ghost["mode"] = prev
+        c.assume(inv)
         if spec.decreases is not None:
             c.ghost[("dec", key)] = call_by_name(spec.decreases, env)
 
